@@ -15,7 +15,7 @@ import sys
 
 PROPS = ['C%02d' % i for i in range(1, 21)]
 TIES = ['OsloPolicy.Properties.TieParser', 'OsloPolicy.Properties.TieOpts', 'OsloPolicy.Properties.TieKinds',
-        'OsloPolicy.Properties.TieApi']
+        'OsloPolicy.Properties.TieApi', 'OsloPolicy.Properties.TieLower']
 
 
 def sh(cmd, **kw):
